@@ -2,7 +2,7 @@
    XpDefs.v that the correspondence check ties to XPath.cpp / XObject.cpp / Function*.cpp.
    Only statements, each closed by `exact` of a lemma of XpModel.v, and Print Assumptions. *)
 From Coq Require Import ZArith NArith List Bool Arith SpecFloat.
-Require Import XV.GenNum XV.NumDefs XV.XpAst XV.DomDefs XV.XpDefs XV.XpModel.
+Require Import XV.GenNum XV.NumDefs XV.XpAst XV.DomDefs XV.XpDefs XV.XpModel XV.DomModel.
 Import ListNotations.
 
 (* Every node-set value the interpreter delivers - for every expression, document, context and
@@ -11,6 +11,40 @@ Theorem nodeset_results_ordered : forall fuel c e r,
   vars_ordered c -> eval fuel c e = Ok (VNodes r) -> ordered r.
 Proof. exact eval_nodes_ordered. Qed.
 Print Assumptions nodeset_results_ordered.
+
+(* The node table of every document the generators (and the correspondence) can build is
+   well-formed: child lists are duplicate-free, inside the table and agree with the parent links. *)
+Theorem built_documents_wellformed : forall top, wf (build_doc top).
+Proof. exact build_doc_wf. Qed.
+Print Assumptions built_documents_wellformed.
+
+(* On a well-formed table the structural walks the interpreter uses (first child / next sibling /
+   previous sibling, as XPath::findChildren / findFollowingSiblings / findPreceedingSiblings do)
+   enumerate exactly the child axis, the following-sibling axis and the preceding-sibling axis
+   (nearest first), for every node and any sufficient fuel. *)
+Theorem child_axis_walk : forall d, wf d -> forall p fuel, length (n_children (get d p)) <= fuel ->
+  siblings_after d fuel (first_child d p) = n_children (get d p).
+Proof. exact child_walk. Qed.
+Print Assumptions child_axis_walk.
+
+Theorem following_sibling_axis_walk : forall d, wf d -> forall p pre x post fuel,
+  n_children (get d p) = pre ++ x :: post -> length post <= fuel ->
+  siblings_after d fuel (next_sibling d x) = post.
+Proof. exact following_sibling_walk. Qed.
+Print Assumptions following_sibling_axis_walk.
+
+Theorem preceding_sibling_axis_walk : forall d, wf d -> forall p pre x post fuel,
+  n_children (get d p) = pre ++ x :: post -> length pre <= fuel ->
+  siblings_before d fuel (prev_sibling d x) = rev pre.
+Proof. exact preceding_sibling_walk. Qed.
+Print Assumptions preceding_sibling_axis_walk.
+
+(* with the fuel the interpreter actually passes (number of nodes + 1) *)
+Theorem child_axis_on_every_built_document : forall top p,
+  let d := build_doc top in
+  siblings_after d (S (length d)) (first_child d p) = n_children (get d p).
+Proof. exact child_axis_on_built_documents. Qed.
+Print Assumptions child_axis_on_every_built_document.
 
 (* the value of a union is the sorted duplicate-free list of the operands' nodes: membership, and
    the laws that follow *)
